@@ -15,7 +15,7 @@ class C01(Prop):
             "distinct = distinct spec digests")
     reach = ["record_spans_3_segments", "three_records_one_segment", "one_byte_segments", "len_0", "len_16384",
              "cbc_extra_padding", "tls13_padding", "tls13_no_hs_secrets", "etm", "resume", "resumption_shares_master_secret", "sh_no_ext", "tickets",
-             "ipv6", "seq_wrap_in_conn", "merge_first", "multi_conn"]
+             "ipv6", "merge_first", "multi_conn", "early_data_before_peer_finished"]
 
     def plan(self, tier):
         p = super().plan(tier)
@@ -96,6 +96,8 @@ class C01(Prop):
                 out.count("reach:tls13_no_hs_secrets")
             if conn.get("merge_first"):
                 out.count("reach:merge_first")
+            if conn.get("early_data_side"):
+                out.count("reach:early_data_before_peer_finished")
             for r in conn.get("recs", []):
                 if r["n"] == 0:
                     out.count("reach:len_0")
